@@ -120,6 +120,20 @@ def _cases(tier, rng):
         yield {"prog": prog, "storage": "file_array", "faults": "ENUM-KILLS"}
         if q % 2 == 0:  # memory storages persist at the end of a run: the kill points are the writes of that persist
             yield {"prog": prog, "storage": "dict", "faults": "ENUM-KILLS"}
+    # quota: a function without a MapSpec whose (single) output is a list, stored before the failure of a later call
+    want, tries = (2 if tier == "quick" else 20), 0
+    while want and tries < 20000:
+        tries += 1
+        prog = progs.gen_map_program(rng, n_funcs=rng.randint(2, 3), allow_generator=False)
+        _, calls = progs.denote(prog)
+        fs = prog["funcs"]
+        if not 2 <= len(calls) <= 8 or not any(f.get("plain_array") and f.get("as_list") and len(f["outputs"]) == 1
+                                               for f in fs[:-1]):
+            continue
+        want -= 1
+        for st in ("file_array", "dict"):
+            for k in range(1, len(calls)):
+                yield {"prog": prog, "storage": st, "faults": [{"kind": "raise", "call": k}]}
 
 
 def _global_call_fault(prog, k):
@@ -187,9 +201,9 @@ def _check_kills(prog, st, want, calls):
                                       "fault": {"kind": "count"}, "logfile": os.path.join(base, "c.log")})
         if status != "ok":
             return [f"count-run-failed: {status} {str(info)[:200]}"]
-        n_opens = info["opens"]
-        for kind in ("kill-before-open", "torn-write"):
-            for n in range(n_opens):
+        n_opens, n_renames = info["opens"], info.get("renames", 0)
+        for kind in ("kill-before-open", "torn-write", "kill-after-rename"):
+            for n in range(n_opens if kind != "kill-after-rename" else n_renames):
                 shutil.rmtree(folder, ignore_errors=True)
                 log1 = os.path.join(base, f"k{kind}{n}.log")
                 status, info, _ = _run_child({"prog": prog, "folder": folder, "storage": st, "cleanup": True,
